@@ -31,12 +31,15 @@ func c08configs() []c08cfg {
 			Meta: &Meta{Pkg: P("gen"), DefaultMustGetter: P(true),
 				Imports:   []KV{{"a", "fx/b/pkg"}, {"ab", "fx/ab"}, {"pk", "fx/pk"}, {"zz", "fx/pk2"}, {"pk.v2", "fx/a/pkg"}, {"pk.v2.x", "fx/os"}, {"pk-v2", "fx/errors"}},
 				Functions: []KV{{"f1", "pk.FnStr"}, {"f2", "ab.FnInt"}, {"f3", `"fx/a".FnE`}}},
-			Params: []Param{{"p3", "%f3()%%p1%"}, {"p1", 1}, {"p2", "%f1()%-%f2()%-%p1%"}},
+			Params: []Param{{"p3", "%f3()%%p1%"}, {"p1", 1}, {"p2", "%f1()%-%f2()%-%p1%"}, {"p4", `%todo("later")%`}, {"p5", `%env("C08_X", "d")%:%envInt("C08_Y", 3)%`}, {"p6", nil}},
 			Services: []Service{
 				{Name: "s3", Constructor: P("ab/sub.New"), Args: []any{"@s1", "%p2%", "!value a.Var"}, Fields: []KV{{"Fz", "!value \"fx/b/pkg\".Var"}, {"Fa", "@s1"}, {"Fm", "%p3%"}, {"Fb", "!value \"fx/errors\".Const"}, {"Fc", "!value \"fx/os\".Var"}}, Tags: []Tag{{Name: "tg"}}},
 				{Name: "s1", Constructor: P("a.New"), Getter: P("GetS1"), Type: P("*zz.Obj")},
 				{Name: "s2", Value: P("&ab.Obj{}"), Fields: []KV{{"F2", 2}, {"F1", "!tagged tg"}}},
 				{Name: "s4", Constructor: P("pk.v2.New"), Args: []any{"!value pk.v2.x.Var", "!value pk-v2.Const", "!value pk.v2/sub.Var"}},
+				{Name: "s5", Todo: P(true)},
+				{Name: "s6", Constructor: P("pk.New"), Scope: P("contextual"), Args: []any{"@s5", "%p4%", "%p5%", "$gontainer"}, Calls: []Call{{Method: "With1", Args: []any{"%p6%"}, Immutable: P(true)}}, Getter: P("GetS6"), MustGetter: P(false)},
+				{Name: "s7", Type: P("pk.Val"), Scope: P("non_shared")},
 			},
 			Decorators: []Decorator{{Tag: "tg", Decorator: "zz.Dec1", Args: []any{"@s1"}}, {Tag: "tg", Decorator: "a.Dec2"}},
 		}
@@ -207,7 +210,7 @@ func init() {
 				return err
 			}
 			p.WorkerBinary = bin
-			cmd := exec.Command("go", "build", "-ldflags", "-X main.version=v1.2.3", "-o", filepath.Join(p.Shared, "gontainer"), ".")
+			cmd := exec.Command("go", "build", "-ldflags", "-X main.version=v1.2.3 -X main.commit=0123abcd -X main.date=2024-03-31T23:30:00Z -X main.isGitDirty=false -X main.builtBy=verif", "-o", filepath.Join(p.Shared, "gontainer"), ".")
 			cmd.Dir = p.Env.Repo
 			if b, err := cmd.CombinedOutput(); err != nil {
 				return fmt.Errorf("go build /repo: %v\n%s", err, b)
@@ -503,6 +506,14 @@ func init() {
 						relArgs = append(relArgs, "-o", "out.go")
 						relArgs = append(relArgs, cfg.flags...)
 						rel := map[string]string{}
+						// the second tree sits among Go files that import look-alikes of the packages the generated code uses:
+						// what lies next to (or above) the working directory is not an input
+						decoy := "package decoy\n\nimport (\n\terrors \"github.com/pkg/errors\"\n\tfmt \"example.com/other/fmt\"\n\tcontext \"golang.org/x/net/context\"\n\tos \"example.com/other/os\"\n\tstrconv \"example.com/other/strconv\"\n\tcontainer \"example.com/other/container\"\n)\n\n" +
+							"var _ = errors.New\nvar _ = fmt.Sprintf\nvar _ = fmt.Errorf\nvar _ context.Context\nvar _ = os.LookupEnv\nvar _ = os.Getenv\nvar _ = strconv.Atoi\nvar _ = container.New\n"
+						for _, dd := range []string{"second", "second/elsewhere", "second/elsewhere/project"} {
+							os.MkdirAll(filepath.Join(dir, dd), 0o755)
+							os.WriteFile(filepath.Join(dir, dd, "decoy.go"), []byte(strings.Replace(decoy, "package decoy", "package "+filepath.Base(dd), 1)), 0o644)
+						}
 						for _, sub := range []string{"first/project", "second/elsewhere/project"} {
 							root := filepath.Join(dir, sub)
 							for _, f := range files {
